@@ -58,14 +58,22 @@ func c02Setup(c *core.Case) *c02Parties {
 	}
 	// One setup in six: every pair is long-lived - its regular numbering has
 	// wrapped and its keys have rolled over once (each pair to its own next key).
-	if c.Chance("rolled-over", 1, 6) {
+	// Another one in six: every pair is about to wrap - its regular numbering
+	// stands inside the last 256 numbers, nothing has rolled over yet.
+	rolled := c.Chance("rolled-over", 1, 6)
+	nearWrap := !rolled && c.Chance("near-wrap", 1, 5)
+	if rolled || nearWrap {
 		b := frame.NewFrameBuilder()
+		start := uint32(0xFFFF_FFFF - 2)
+		if nearWrap {
+			start = 0xFFFF_FF00 + uint32(c.Int("near-wrap.at", 0, 60))
+		}
 		for _, pr := range []struct {
 			from, to *vnet.Party
 			s, r     *state.Session
 		}{{p.a, p.b, p.sAB, p.sBA}, {p.c, p.b, sCB, p.sBC}, {p.a, p.d, sAD, p.sDA}} {
 			h := state.EncryptionSessionTestHelper{EncryptionSession: pr.s.Encryption()}
-			h.ReglSetOut(0xFFFF_FFFF - 2)
+			h.ReglSetOut(start)
 			for k := 0; k < 5; k++ {
 				f, err := b.NewFrameV1(pr.from.ID.Addr.IP, pr.to.ID.Addr.IP, frame.NetworkTraffic, nil, []byte("long-lived session traffic"), nil)
 				if err != nil {
@@ -82,7 +90,11 @@ func c02Setup(c *core.Case) *c02Parties {
 				}
 			}
 		}
-		c.Class("sessions-rolled-over-once")
+		if rolled {
+			c.Class("sessions-rolled-over-once")
+		} else {
+			c.Class("sessions-about-to-wrap")
+		}
 	}
 	return p
 }
